@@ -54,6 +54,70 @@ class Gen:
         return out
 
     def case(self):
+        if self.rng.random() < 0.15:
+            return self.multifile_case()
+        return self.plain_case()
+
+    def multifile_case(self):
+        """One index + int64 (+ optional) channels whose data spans 2-3 files (cap 210: a file takes
+        five 40-byte frames), tombstones only in the first file(s), then GC right before a reopen."""
+        rng = self.rng
+        chans = [{"key": 1, "index": 1, "type": "ts"}, {"key": 2, "index": 1, "type": "i64"}]
+        data = [2]
+        if rng.random() < 0.5:
+            chans.append({"key": 3, "index": 1, "type": rng.choice(["i64", "str", "u8"])})
+            data.append(3)
+        self.types = {c["key"]: c["type"] for c in chans}
+        g = {"ix": 1, "data": data, "blocks": [], "nblock": 0, "desc": False}
+        alphabet = {0, MAXTS}
+        ops = []
+        allch = [1] + data
+        nw = rng.randrange(7, 13)
+        for _ in range(nw):
+            g["nblock"] += 1
+            gap = rng.choice([2, 7, 10])
+            first = 1000 * g["nblock"]
+            start = first if rng.random() < 0.7 else first - rng.choice([1, 4])
+            stamps = [first + i * gap for i in range(5)]
+            g["blocks"].append({"stamps": stamps, "written": set(allch), "start": start})
+            self.note_stamps(alphabet, stamps, start, stamps[-1] + 1)
+            ops.append(self.mk_write(start, allch, stamps))
+        # tombstones in the first file only: a range inside the first 2-4 blocks
+        nb = rng.randrange(2, 5)
+        b0 = g["blocks"][rng.randrange(0, 2)]
+        b1 = g["blocks"][min(nb, 4)]
+        a = rng.choice(b0["stamps"][:3]) + rng.choice([0, 0, 1])
+        b = rng.choice(b1["stamps"]) + rng.choice([0, 0, -1])
+        named = list(data) if rng.random() < 0.6 else [2]
+        if rng.random() < 0.4:
+            named = named + [1]
+        ops.append({"op": "delete", "chans": named, "a": a, "b": b})
+        alphabet.update((a, b))
+        tail = rng.choice([["reopen", "gc", "reopen"], ["gc", "reopen"], ["reopen", "gc", "gc", "reopen"],
+                           ["reopen", "gc", "reopen", "gc"]])
+        ops += [{"op": t} for t in tail]
+        groups = [g]
+        deleted = []
+        for _ in range(rng.randrange(0, 4)):
+            x = rng.random()
+            if x < 0.4:
+                ops.append(self.gen_delete(groups, 0, alphabet, deleted))
+            elif x < 0.6:
+                op = self.gen_write(g, 0, alphabet, deleted, 0)
+                if op:
+                    ops.append(op)
+            elif x < 0.8:
+                ops.append({"op": "gc"})
+            else:
+                ops.append({"op": "reopen"})
+        al = sorted(alphabet)
+        ranges = [[0, MAXTS]]
+        for _ in range(rng.randrange(4, 7)):
+            x, y = rng.choice(al), rng.choice(al)
+            ranges.append([min(x, y), max(x, y)])
+        return {"cap": 210, "thr": rng.choice([0.2, 0.2, 0.5]), "channels": chans, "ops": ops, "ranges": ranges}
+
+    def plain_case(self):
         rng = self.rng
         groups = []
         chans = []
@@ -426,6 +490,12 @@ def histogram(case, r):
         ks.append("delete_split_a_domain")
     if w:
         ks.append("gc_rewrote_a_file")
+    if any(len([f for f in c["files"] if f[0] > 0]) >= 2 for out in r.get("outs", []) for c in out["chans"]):
+        ks.append("channel_spans_several_files")
+    for (o1, o2) in zip(case["ops"], case["ops"][1:]):
+        if o1["op"] == "gc" and o2["op"] == "reopen":
+            ks.append("gc_then_reopen")
+            break
     types = {c["key"]: c["type"] for c in case["channels"]}
     for o, out in zip(case["ops"], r.get("outs", [])):
         ks.append("op=" + o["op"])
@@ -473,7 +543,7 @@ def model_dump(case, r):
 
 RULE = ("scripts of 6-18 operations over 1-2 index groups (index channel + 1-3 data channels of types int64, uint8, "
         "string/variable): writes (fresh blocks, contiguous continuations, starts before the first sample, data-only "
-        "writes over existing index stamps, writes into deleted regions), 30% of the scripts open with a nested multi-domain delete pair (a second delete starting in the sample-free tail of the remainder of the first and ending on the start of a later domain), DeleteTimeRange over data-only / whole-group / "
+        "writes over existing index stamps, writes into deleted regions), 15% of the scripts are multi-file layouts (7-12 frames at cap 210 B so a channel spans 2-3 files, tombstones in the first file only, then GC directly followed by reopen); 30% of the other scripts open with a nested multi-domain delete pair (a second delete starting in the sample-free tail of the remainder of the first and ending on the start of a later domain), DeleteTimeRange over data-only / whole-group / "
         "index-only / cross-group / unknown-channel sets with bounds from {sample stamps, +-1, mid-gap, domain edges, 0, "
         "MAX, inverted, empty}, GC at thresholds {2^-20, 0.2, 0.5, 1} and file caps {210..1200} B, reopen; after every "
         "operation every channel is read over [0,MAX) and 5-9 ranges drawn from the same alphabet and from the neighbourhood of the delete bounds. Non-trivial = a script with "
